@@ -12,7 +12,8 @@
 (*   stack : sequence of populations, bottom first, TOP LAST.  A population*)
 (*           is a sequence of individuals <<tag, rank>>: `tag` interns the *)
 (*           solution (P-tag), `rank` is the dense rank of the objective   *)
-(*           value among the values of the run (P-rank), +inf = INF.  An   *)
+(*           value among the values of the run (P-rank), +inf = INF;       *)
+(*           values equal as numbers (+0.0 / -0.0) have ONE rank.  An      *)
 (*           individual whose objective is not a value of the run (a copy  *)
 (*           that is not exact) is projected to rank -1, an unevaluated    *)
 (*           one to rank -2; neither is a member of any source.            *)
